@@ -190,7 +190,7 @@ func vpInv(e *vEnv, assert bool) bool {
 		m.req("C01,C02,C04,C05,C11,C12", "INV.05.responses", vpResponsesName(d, req.Hash()))
 	} else {
 		m.req("C01,C02,C04,C05,C11,C12", "INV.05.noproposal", len(d.TransactionHashes) == 0 && len(d.Transactions) == 0 && len(d.MissingTransactions) == 0)
-		m.req("C01,C02,C04,C05,C11,C12", "INV.05.noheader", d.header == nil && d.block == nil && d.preHeader == nil && d.preBlock == nil)
+		m.req("C01,C02,C04,C05,C11,C12,C15", "INV.05.noheader", d.header == nil && d.block == nil && d.preHeader == nil && d.preBlock == nil)
 		m.req("C01,C02,C05,C07", "INV.13.noblock", !d.blockProcessed)
 	}
 	// 6/7 transactions
@@ -255,16 +255,16 @@ func vpInv(e *vEnv, assert bool) bool {
 	}
 	// 12 lazily built objects
 	if d.header != nil {
-		m.req("C01,C02,C07", "INV.12.header", req != nil && (!amev || d.preBlockProcessed) && vpHeaderMatches(d, d.header))
+		m.req("C01,C02,C07,C15", "INV.12.header", req != nil && (!amev || d.preBlockProcessed) && vpHeaderMatches(d, d.header))
 	}
 	if d.block != nil {
-		m.req("C01,C02,C07", "INV.12.block", d.block == d.header && vpHasAllTx(d))
+		m.req("C01,C02,C07,C15", "INV.12.block", d.block == d.header && vpHasAllTx(d))
 	}
 	if d.preHeader != nil {
-		m.req("C01,C02,C07", "INV.12.preheader", req != nil && amev && vpPreHeaderMatches(d, d.preHeader))
+		m.req("C01,C02,C07,C15", "INV.12.preheader", req != nil && amev && vpPreHeaderMatches(d, d.preHeader))
 	}
 	if d.preBlock != nil {
-		m.req("C01,C02,C07", "INV.12.preblock", d.preBlock == d.preHeader && vpHasAllTx(d))
+		m.req("C01,C02,C07,C15", "INV.12.preblock", d.preBlock == d.preHeader && vpHasAllTx(d))
 	}
 	// 13 decided
 	if d.blockProcessed {
